@@ -26,7 +26,8 @@ CONSTANTS Configs,    \* set of client configurations (records, see below)
 (* cfg: [insecure, sm, tls, cred, ws, wss, skiptls]                        *)
 (*   tls  : "none" | "ca" | "casn" | "caother" | "skip"   (client TLS cfg) *)
 (*   cred : "password" | "token"                                           *)
-(*   ws / wss : WebSocket transport (no STARTTLS; secure iff wss:)         *)
+(*   ws / wss : WebSocket transport (no STARTTLS; secure iff wss:, where   *)
+(*              the certificate is checked by the dial: stage "wsdial")    *)
 (*   skiptls  : only the trace monitor sets it: in insecure mode the       *)
 (*              statement does not say whether STARTTLS is attempted       *)
 (*   sessalways: only the trace monitor sets it: an optional legacy        *)
@@ -60,6 +61,8 @@ ChosenMech(cred, offered) ==
 W(k, c) == [k |-> k, enc |-> c.secure]
 NewConn(n) == [n |-> n, pc |-> "open1", secure |-> FALSE, certok |-> FALSE, wire |-> <<[k |-> "open", enc |-> FALSE]>>,
                out |-> "run", f3 |-> "", mech |-> "", resumed |-> FALSE, bound |-> FALSE]
+\* wss: nothing is written before the TLS handshake of the dial has accepted the server's certificate
+NewConnCf(n, cf) == IF cf.ws /\ cf.wss THEN [NewConn(n) EXCEPT !.pc = "wsdial", !.wire = <<>>] ELSE NewConn(n)
 Keep0 == [smid |-> "", inbound |-> 0]
 
 Fail(c, how) == [c EXCEPT !.pc = "done", !.out = how]
@@ -85,10 +88,14 @@ AuthOrFail(c, cf, mechs) ==
 (* Returns [c |-> connection', k |-> carried state']                       *)
 (***************************************************************************)
 Step(c, k, cf, r) ==
-    CASE c.pc = "open1" ->
+    CASE c.pc = "wsdial" ->
+            \* the WebSocket library verifies the certificate against the URL's host with the system roots; the
+            \* client's TLSConfig plays no part
+            [k |-> k, c |-> IF r.v = "valid" THEN Send([c EXCEPT !.secure = TRUE, !.certok = TRUE], "open", "open1") ELSE Fail(c, "err")]
+      [] c.pc = "open1" ->
             [k |-> k, c |->
              IF r.v \in {"bad", "close", "other"} THEN Fail(c, "err")
-             ELSE IF cf.ws THEN AuthOrFail([c EXCEPT !.secure = cf.wss], cf, r.mechs)   \* WebSocket: no STARTTLS, wss: is secure
+             ELSE IF cf.ws THEN (IF cf.wss \/ cf.insecure THEN AuthOrFail(c, cf, r.mechs) ELSE Fail(c, "perm"))  \* WebSocket: no STARTTLS
              ELSE IF r.v \in {"tls", "tlsreq"} /\ ~(cf.insecure /\ cf.skiptls) THEN Send(c, "starttls", "tlsr")
              ELSE (* "notls" *) IF cf.insecure THEN AuthOrFail(c, cf, r.mechs) ELSE Fail(c, "perm")]
       [] c.pc = "tlsr" ->
@@ -128,7 +135,8 @@ Step(c, k, cf, r) ==
 Rep(v) == [v |-> v, mechs |-> <<>>]
 RepM(v, m) == [v |-> v, mechs |-> m]
 Alphabet(pc) ==
-    CASE pc = "open1" -> {RepM(v, m) : v \in F1s \ {"bad", "close", "other"}, m \in MechLists} \cup {Rep(v) : v \in F1s \cap {"bad", "close", "other"}}
+    CASE pc = "wsdial" -> {Rep(v) : v \in Certs \ {"nottls"}}
+      [] pc = "open1" -> {RepM(v, m) : v \in F1s \ {"bad", "close", "other"}, m \in MechLists} \cup {Rep(v) : v \in F1s \cap {"bad", "close", "other"}}
       [] pc = "tlsr"  -> {Rep(v) : v \in TlsRs}
       [] pc = "cert"  -> {Rep(v) : v \in Certs}
       [] pc = "open2" -> {RepM(v, m) : v \in F2s \ {"close"}, m \in MechLists} \cup {Rep(v) : v \in F2s \cap {"close"}}
@@ -141,7 +149,7 @@ Alphabet(pc) ==
       [] OTHER        -> {}
 
 \* ---------------------------------------------------------------- model
-Init == /\ cfg \in Configs /\ keep = Keep0 /\ conn = NewConn(1) /\ nconn = 1
+Init == /\ cfg \in Configs /\ keep = Keep0 /\ conn = NewConnCf(1, cfg) /\ nconn = 1
         /\ hist = <<[op |-> "connect", replies |-> <<>>]>>
 
 Reply(r) == /\ conn.pc # "done"
@@ -151,7 +159,7 @@ Reply(r) == /\ conn.pc # "done"
 
 \* the connection is over (failed, or established and later lost): the application reconnects
 Reconnect(op) == /\ conn.pc = "done" /\ nconn < MaxConns
-                 /\ conn' = NewConn(nconn + 1) /\ nconn' = nconn + 1
+                 /\ conn' = NewConnCf(nconn + 1, cfg) /\ nconn' = nconn + 1
                  /\ hist' = Append(hist, [op |-> op, replies |-> <<>>])
                  /\ UNCHANGED <<cfg, keep>>
 
@@ -162,7 +170,7 @@ Spec == Init /\ [][Next]_vars
 Sensitive == {"auth", "resume", "bind", "session", "enable"}
 \* C04: nothing sensitive without verified TLS unless insecure mode was requested
 C04_NoSecretInClear == \A i \in 1..Len(conn.wire) :
-      conn.wire[i].k \in Sensitive => (cfg.insecure \/ (conn.wire[i].enc /\ conn.certok) \/ (cfg.ws /\ cfg.wss))
+      conn.wire[i].k \in Sensitive => (cfg.insecure \/ (conn.wire[i].enc /\ conn.certok))
 \* C03: requests in RFC 6120 order
 Kinds == [i \in 1..Len(conn.wire) |-> conn.wire[i].k]
 Rank(k) == CASE k = "open" -> 0 [] k = "starttls" -> 1 [] k = "auth" -> 2 [] k = "resume" -> 3 [] k = "bind" -> 4
@@ -173,7 +181,7 @@ C03_AtMostOnceEach == \A i, j \in 1..Len(conn.wire) : (i # j /\ Kinds[i] = Kinds
 C03_SuccessNeedsSteps == (conn.pc = "done" /\ conn.out = "ok") =>
       /\ \E i \in 1..Len(conn.wire) : Kinds[i] = "auth"
       /\ (conn.resumed \/ conn.bound)
-      /\ (cfg.insecure \/ conn.secure \/ cfg.ws)
+      /\ (cfg.insecure \/ conn.secure)
 \* C11
 C11_ResumeOnlyWithId == (\E i \in 1..Len(conn.wire) : Kinds[i] = "resume") => conn.n > 1
 C11_ResumedMeansNoBind == conn.resumed => ~\E i \in 1..Len(conn.wire) : Kinds[i] = "bind"
